@@ -839,3 +839,21 @@ package appencryption
 //@ func decryptRow$1
 //@   facet C01
 //@   ensures [C01:data-key-unwrapped-then-payload-opened-with-it] ncalls(Decrypt) <= 2 && arg(Decrypt, 1, data) == drr.Key.EncryptedKey && arg(Decrypt, 1, key) == bytes && (retis(Decrypt, 1, 1, nil) ==> arg(Decrypt, 2, data) == drr.Data && arg(Decrypt, 2, key) == ret(Decrypt, 1, 0) && result == ret(Decrypt, 2, 0))
+
+// ---- strengthened after the second round of seeded changes ----
+//@ func (*keyCache).write
+//@   facet C05
+//@   safety C05
+//@   opt no-frame
+//@   requires c != nil && c.latest != nil && c.keys != nil && e.key != nil && e.key.CryptoKey != nil && wfCK(e.key) && (meta.Created != 0 ==> e.key.CryptoKey.created == meta.Created)
+//@   requires forall k string :: cdom(c.keys)[k] ==> wfCK(cval(c.keys)[k].key) && valid(cval(c.keys)[k].key)
+//@   ensures [C05:latest-alias-never-moves-backwards] meta.Created != 0 ==> (forall k string :: old(k in c.latest) ==> k in c.latest && c.latest[k].Created >= old(c.latest[k].Created))
+//@   ensures [C05:latest-alias-advances-to-a-newer-key] meta.Created != 0 && e.key.CryptoKey.created == meta.Created && old(ck(meta.ID, 0) in c.latest) && old(c.latest[ck(meta.ID, 0)].Created) < meta.Created ==> c.latest[ck(meta.ID, 0)].Created == meta.Created
+
+//@ func (*envelopeEncryption).createIntermediateKey
+//@   ensures [C02,C01,C14:generated-key-returned-only-if-its-insert-succeeded] err == nil && result == ret(GenerateKey, 1, 0) ==> retis(Store, 1, 0, true)
+//@ func (*envelopeEncryption).loadLatestOrCreateSystemKey
+//@   ensures [C02,C01,C14:generated-key-returned-only-if-its-insert-succeeded] err == nil && retis(GenerateKey, 1, 1, nil) && result == ret(GenerateKey, 1, 0) ==> retis(Store, 1, 0, true)
+
+//@ func (*cacheWrapper).Get
+//@   ensures [C06,C16:session-cache-keyed-by-the-exact-partition-id] ncalls(Get) == 1 && arg(Get, 1, key) == id && (err == nil && !ret(Get, 1, 1) ==> arg(loader, 1, id) == id && arg(Set, 1, key) == id)
